@@ -40,7 +40,8 @@ func ruleEOFOnlyAtEnd(c *Ctx) {
 			if o.Back {
 				continue // a normal iteration: no return value
 			}
-			isEOF := o.RetErr.K == avErrGlobal && o.RetErr.S == "EOF"
+			// the error handed back by ReadByte on a network EOF IS io.EOF
+			isEOF := o.RetErr.K == avErrGlobal && o.RetErr.S == "EOF" || o.RetErr.K == avErrIn && ev.Kind == "eof"
 			isNil := o.RetErr.K == avErrNil
 			ok, why := true, ""
 			switch {
